@@ -510,9 +510,11 @@ func exGraphOracle(prop string, ids, withFaults bool, variants func(r *rng, g *e
 }
 
 func exAbsVariants(r *rng, g *exGraph) []*exInput {
-	a, b := exInputOf(g), exInputOf(g)
+	a, b, c := exInputOf(g), exInputOf(g), exInputOf(g)
 	a.Opts, b.Opts = &exOpts{Abs: false}, &exOpts{Abs: true}
-	return []*exInput{a, b}
+	// once more for a root that was not decoded but built: the same document in another in-memory representation
+	c.Opts = &exOpts{Abs: r.chance(1, 2), Built: true}
+	return []*exInput{a, b, c}
 }
 
 // ---------------------------------------------------------------------------------------------
@@ -995,7 +997,10 @@ func exFirstDiff(a, b interface{}, at string) string {
 
 func checkC09(in *exInput) []exFinding {
 	g := in.graph()
-	res := exExpand(g, exOpts{Skip: true})
+	// the other options must make no difference to what skip mode does (AbsoluteCircularRef is about circular references of a
+	// full expansion; ContinueOnError about unresolvable ones)
+	o := in.opts()
+	res := exExpand(g, exOpts{Skip: true, Abs: o.Abs, Built: o.Built})
 	if !res.ok() {
 		return nil
 	}
@@ -2263,7 +2268,7 @@ func init() {
 	reg("C03", exGraphOracle("C03", true, false, exAbsVariants, checkC03, 2), checkC03)
 	reg("C04", exGraphOracle("C04", true, true, exPlainVariant, checkC04, 1), checkC04)
 	reg("C08", exGraphOracle("C08", false, true, exPlainVariant, checkC08, 1), checkC08)
-	reg("C09", exGraphOracle("C09", false, false, exPlainVariant, checkC09, 2), checkC09)
+	reg("C09", exGraphOracle("C09", false, false, exAbsVariants, checkC09, 1), checkC09)
 	reg("C10", exGraphOracle("C10", false, false, exC10Variants, checkC10, 1), checkC10)
 	reg("C18", exGraphOracle("C18", false, false, exAbsVariants, checkC18, 1), checkC18)
 	reg("C11e2e", exGraphOracle("C11e2e", false, false, exSpellingVariants, checkC11e2e, 1), checkC11e2e)
